@@ -799,7 +799,7 @@ impl<'a> Ref<'a> {
                         let e = e as usize;
                         for i in 0..n as usize {
                             let chunk = &cur[i * e..(i + 1) * e];
-                            let (v, used) = self.dec_elem(elem, chunk, ev)?;
+                            let (v, used) = self.dec_elem(elem, chunk, ev).map_err(|e| { ev.insert("fault@array-elem".into()); e })?;
                             if used != chunk.len() {
                                 ev.insert("trailing-in-element".into());
                                 return Err(DecErr::TrailingBytesInArray);
@@ -820,7 +820,7 @@ impl<'a> Ref<'a> {
                             }
                         }
                         for _ in 0..n {
-                            let (v, used) = self.dec_elem(elem, cur, ev)?;
+                            let (v, used) = self.dec_elem(elem, cur, ev).map_err(|e| { ev.insert("fault@array-elem".into()); e })?;
                             cur = &cur[used..];
                             out.push(v);
                         }
@@ -853,7 +853,7 @@ impl<'a> Ref<'a> {
                             }
                         }
                         while !sub.is_empty() {
-                            let (v, used) = self.dec_elem(elem, sub, ev)?;
+                            let (v, used) = self.dec_elem(elem, sub, ev).map_err(|e| { ev.insert("fault@array-elem".into()); e })?;
                             if used == 0 {
                                 ev.insert("zero-progress-elem".into());
                                 return Err(DecErr::ArraySize);
